@@ -1,0 +1,23 @@
+//go:build verif
+
+package tls //nolint:revive
+
+// Machine-checked contracts for /verif (govc). Comment-only: compiled only with -tags verif, adds no code.
+
+//@ func MakeConfig
+//@   property C41
+//@   ensures [no-pinning-without-fingerprint] fingerprint == "" ==> result == nil
+//@   ensures [pinning-replaces-chain-validation] fingerprint != "" ==> result != nil && result.InsecureSkipVerify && result.VerifyConnection != nil
+//@   ensures [case-insensitive] fingerprint != "" ==> fingerprintLower == toLower(fingerprint)
+
+// The verification callback: the digest is computed over the leaf certificate only and compared with
+// the lower-cased fingerprint; the connection is accepted iff they are equal.
+
+//@ func MakeConfig$1
+//@   property C41
+//@   requires len(cs.PeerCertificates) >= 1 && cs.PeerCertificates[0] != nil
+//@   assert-call Write: recv == h && p == cs.PeerCertificates[0].Raw
+//@   assert-call Sum: recv == h && isnil(b)
+//@   assert-call EncodeToString: src == resultof(Sum)
+//@   ensures [accepts-iff-equal] (result == nil) == (hstr == fingerprintLower)
+//@   ensures [digest-of-leaf-only] called(Write) == 1 && called(Sum) == 1 && called(EncodeToString) == 1
